@@ -75,3 +75,50 @@ def fold_unbounded(v):
     if v.get('cls') != 'fold_twin' or 'tree' not in v:
         return False
     return const_events(_totuple(v['tree']), v['w'])
+
+
+def _has_const_zero_division(tree):
+    """does the tree contain a / or % whose right operand folds (unbounded) to zero?"""
+    found = [False]
+
+    def val(t):
+        k = t[0]
+        if k == 'lit':
+            return t[1]
+        if k == 'bool':
+            return t[1]
+        if k == 'neg':
+            return -int(val(t[1]))
+        if k == 'pos':
+            return int(val(t[1]))
+        if k == 'not':
+            return not val(t[1])
+        if k in ('isbyte', 'isint'):
+            return int(val(t[1]))
+        if k == 'isbool':
+            return bool(val(t[1]))
+        op = t[1]
+        a = val(t[2])
+        b = val(t[3])
+        if op in ('and', 'or'):
+            return (bool(a) and bool(b)) if op == 'and' else (bool(a) or bool(b))
+        a, b = int(a), int(b)
+        if op in ('/', '%'):
+            if b == 0:
+                found[0] = True
+                return 0
+            return a // b if op == '/' else a % b
+        return {'+': a + b, '-': a - b, '*': a * b, '<': a < b, '>': a > b, '<=': a <= b, '>=': a >= b, '==': a == b, '!=': a != b}[op]
+    val(tree)
+    return found[0]
+
+
+def const_div_in_dead_operand(v):
+    """F11: a constant division/modulo by zero is rejected at compile time even when it sits in an
+    operand that short-circuit evaluation never reaches at run time."""
+    if v.get('cls') != 'fold_twin' or 'tree' not in v:
+        return False
+    cr = v.get('constant_result') or []
+    if not cr or cr[0] != 'compile_error' or 'zero' not in (cr[3] if len(cr) > 3 else ''):
+        return False
+    return _has_const_zero_division(_totuple(v['tree']))
